@@ -184,7 +184,7 @@ def gen_case(r, idx, malformed=False):
         adds.append(r.choice(USER_NAMES))        # the outer language declares something of its own
     case["adds"] = adds
     case["lang_adds"] = [r.sample(USER_NAMES, r.weighted([(0, 5), (1, 3), (2, 1)])) for _ in range(max(0, case["nlangs"] - 1))]
-    declared = ["project_root"] + [a for a in adds if a not in SIG_STR and a not in SIG_FILE]
+    declared = list(dict.fromkeys(["project_root"] + [a for a in adds if a not in SIG_STR and a not in SIG_FILE]))
     # files
     bases = ["a", "b", "c", "d", "e"]
     ext = {b: ".m" for b in bases + ["p"]}
